@@ -33,3 +33,34 @@ Proof.
     unfold tbl_eqb. rewrite (sx_eqb_refl (tbl_sx (dump (fold_left apply_mop (firstn (S (w_acked w)) ops) [])))).
     cbn [andb]. now rewrite orb_true_r.
 Qed.
+
+Lemma validb_valid (c : case) : validb c = true -> valid c.
+Proof. intros H. exact H. Qed.
+
+(* every acknowledgement count up to the number of operations is reached by a trace of the writer, and the
+   checker accepts the table that trace leaves *)
+Lemma wrun_acks ops : forall a, (a <= length ops)%nat ->
+  exists tr w, wrun ops winit tr = Some w /\ w_acked w = a /\ w_done w = a.
+Proof.
+  assert (G : forall tr1 tr2 w0 w1, wrun ops w0 tr1 = Some w1 -> wrun ops w0 (tr1 ++ tr2) = wrun ops w1 tr2).
+  { induction tr1 as [|e tr1 IH]; intros tr2 w0 w1 H; cbn [wrun app] in *; [now inversion H|].
+    destruct (wstep ops w0 e); [now apply IH|discriminate]. }
+  induction a as [|a IH]; intros Ha.
+  - exists [], winit. repeat split.
+  - destruct IH as (tr & w & Hr & Hk & Hd); [lia|].
+    destruct (nth_error ops a) as [o|] eqn:Hn; [|apply nth_error_None in Hn; lia].
+    exists (tr ++ [WExec; WAck]). eexists. split; [|split].
+    + rewrite (G _ _ _ _ Hr). cbn [wrun wstep]. rewrite Hd, Hk, Nat.eqb_refl, Hn. cbn [w_acked w_done].
+      assert (Hl : Nat.ltb a (S a) = true) by (apply Nat.ltb_lt; lia). rewrite Hl. reflexivity.
+    + reflexivity.
+    + reflexivity.
+Qed.
+
+Lemma covered_crash ops a : validb_crash ops a = true ->
+  holds_crash ops a (dump (fold_left apply_mop (firstn a ops) [])) = [].
+Proof.
+  intros H. apply Nat.leb_le in H. destruct (wrun_acks ops a H) as (tr & w & Hr & Hk & Hd).
+  pose proof (holds_crash_model ops tr w Hr) as Hc.
+  destruct (crash_prefix ops tr winit w (winv_init ops) Hr) as (Ht & _ & _).
+  rewrite Hk, Ht, Hd in Hc. exact Hc.
+Qed.
